@@ -196,6 +196,33 @@ def tie_cases(draw):
     return {"continuum": {"annotators": names, "units": units, "shape": "ties"}, "dissim": spec}
 
 
+@st.composite
+def expensive_pair_cases(draw):
+    """two short, distant units (annotators 0 and 1) whose pair cost alone is close to the whole cut C(n,2)*n*delta_empty,
+    spanned by long units of the other annotators (cheap pairs): tuples whose sum straddles the cut because of ONE pair"""
+    n = draw(st.integers(3, 5))
+    names = ["a", "b", "c", "d", "e"][:n]
+    delta = draw(st.sampled_from([1.0, 1.0, 0.5, 2.0]))
+    cut = n * (n - 1) / 2 * n          # in units of delta_empty
+    frac = draw(st.integers(55, 108)) / 100.0
+    x = (frac * cut) ** 0.5           # (|ds|+|de|)/(sum of durations) for the expensive pair
+    w = float(draw(st.sampled_from([1, 2, 4])))           # duration of the short units
+    shift = round(x * w * 4) / 4                          # |ds| = |de| = shift -> ratio = 2*shift/(2w) = shift/w
+    units = [[names[0], 0.0, w, "A"], [names[1], shift, shift + w, "A"]]
+    for a in names[2:]:
+        lo = -float(draw(st.integers(0, 2)))
+        hi = shift + w + float(draw(st.integers(0, 2)))
+        units.append([a, lo, hi, "A"])
+    # a few extra units so that the candidate set is not trivial
+    for a in names[:2]:
+        if draw(st.booleans()):
+            s0 = float(draw(st.integers(-40, -20)))
+            units.append([a, s0, s0 + w, "A"])
+    spec = draw(st.sampled_from([{"kind": "pos", "delta": delta},
+                                 {"kind": "combined", "alpha": 1.0, "beta": 1.0, "delta": delta, "pos": None, "cat": None}]))
+    return {"continuum": {"annotators": names, "units": units, "shape": "expensive-pair"}, "dissim": spec}
+
+
 EDIT = st.one_of(
     st.tuples(st.just("replace"), st.integers(0, 50), gen.dyadic(0, 60), gen.dyadic(0.25, 12), st.integers(0, 5)),
     st.tuples(st.just("replace"), st.integers(0, 50), gen.dyadic(0, 60), gen.dyadic(0.25, 12), st.integers(0, 5)),
@@ -216,6 +243,8 @@ def subchecks(tier):
         Sub(name="small", check=check, strategy=small_cases(),
             examples={"quick": 150, "thorough": 2000}, shards={"quick": 8, "thorough": 16}),
         Sub(name="history", check=check, strategy=history_cases(),
+            examples={"quick": 100, "thorough": 1500}, shards={"quick": 4, "thorough": 16}),
+        Sub(name="expensive-pair", check=check, strategy=expensive_pair_cases(),
             examples={"quick": 100, "thorough": 1500}, shards={"quick": 4, "thorough": 16}),
         Sub(name="ties", check=check, strategy=tie_cases(),
             examples={"quick": 150, "thorough": 2000}, shards={"quick": 4, "thorough": 16}),
